@@ -902,7 +902,7 @@ def classify_for(pid, suite, desc):
 def replay_finding_for(pid, f):
     """True when the witness of finding f still fails on the implementation (None: not ours)"""
     w = f.get("witness") or {}
-    if not f["id"].startswith("F-") or w.get("half") != "rtubin":
+    if not isinstance(w, dict) or not f["id"].startswith("F-") or w.get("half") != "rtubin":
         return None
     if "chunks" in w:
         run = drive(w["kind"], w["client"], w["units"], w.get("single", False), w.get("reset", False),
